@@ -16,7 +16,20 @@ HASH_SENSITIVE = False
 CONTAINERS = ['list', 'tuple', 'dict', 'Dict', 'dictattr', 'OrderedDict']
 LEAF_KINDS = ['sleep', 'task', 'future', 'done', 'twostage', 'shared', 'nested', 'imm', 'custom', 'dep', 'gen']
 DELAYS = [0, 0, 1, 1, 2, 5, 3600]
-PLAIN = [None, 0, 1, 'x', 2.5, True]
+PLAIN = [None, 0, 1, 'x', 2.5, True, {'special': 'future_class'}, {'special': 'handle_class'}]
+
+
+class _HandleClass:
+    """instances would be awaitable; the class object itself is plain data"""
+    def __await__(self):
+        return iter(())
+
+
+def _plain(v):
+    if isinstance(v, dict) and 'special' in v:
+        import asyncio as _a
+        return _a.Future if v['special'] == 'future_class' else _HandleClass
+    return v
 FAULTS = ['leaf_raise', 'leaf_cancel', 'outer_cancel', 'slow_leaf']
 
 
@@ -137,7 +150,7 @@ class SimValueError(ValueError, SimLeafError):
     pass
 
 
-RES = {'none': None, 'zero': 0, 'empty': '', 'list': [], 'false': False}
+RES = {'none': None, 'zero': 0, 'empty': '', 'list': [], 'false': False, 'handle': 'HANDLE'}
 
 
 def _copy_res(v):
@@ -161,6 +174,29 @@ def _ctor(name):
     import pyg_base
     return {'list': list, 'tuple': tuple, 'dict': dict, 'Dict': pyg_base.Dict,
             'dictattr': pyg_base.dictattr, 'OrderedDict': collections.OrderedDict}[name]
+
+
+def _edit_empties(v, depth=0):
+    if depth > 8:
+        return
+    if isinstance(v, list):
+        if not v:
+            v.append('edited-by-caller')
+        else:
+            for x in v:
+                _edit_empties(x, depth + 1)
+    elif isinstance(v, dict):
+        if not v:
+            try:
+                v['edited-by-caller'] = 1
+            except Exception:
+                pass
+        else:
+            for x in list(v.values()):
+                _edit_empties(x, depth + 1)
+    elif isinstance(v, tuple):
+        for x in v:
+            _edit_empties(x, depth + 1)
 
 
 def _multi_ok(node, leaves):
@@ -236,12 +272,20 @@ def execute(trace, ctx=None):
         return 3600 if i in slow else leaves[i].get(key, 0)
 
     gen = {'n': 1}
+    handles = {}
     containers = []         # (object, node) of every mutable container handed to waiter, children before parents
     node_obj = {}
 
     def result_of(i):
         # an awaitable may perfectly well result in None, 0, '' or an empty list
         kind_ = leaves[i].get('res') if i < len(leaves) else None
+        if kind_ == 'handle':
+            key_ = (i, gen['n'])
+            if key_ not in handles:
+                h_ = loop.create_future()
+                h_.set_result(['inner', i])
+                handles[key_] = h_
+            return handles[key_]
         if kind_ in RES:
             return _copy_res(RES[kind_])
         return ['r', i] if gen['n'] == 1 else ['r', i, gen['n']]
@@ -373,7 +417,7 @@ def execute(trace, ctx=None):
     def build(node):
         t = node['t']
         if t == 'plain':
-            return node['v']
+            return _plain(node['v'])
         if t == 'same':
             if not ok_ids.get(node['ref']):
                 return None
@@ -400,7 +444,7 @@ def execute(trace, ctx=None):
         """second round: fresh awaitables put into the container objects of the first round (tuples are rebuilt)"""
         t = node['t']
         if t == 'plain':
-            return node['v']
+            return _plain(node['v'])
         if t == 'same':
             return by_id.get(node['ref']) if ok_ids.get(node['ref']) else None
         if t == 'leaf':
@@ -422,7 +466,7 @@ def execute(trace, ctx=None):
     def expected(node):
         t = node['t']
         if t == 'plain':
-            return node['v']
+            return _plain(node['v'])
         if t == 'same':
             return expected(nodes_by_id[node['ref']]) if node['ref'] in nodes_by_id and node['ref'] in by_id and ok_ids.get(node['ref']) else None
         if t == 'leaf':
@@ -453,6 +497,9 @@ def execute(trace, ctx=None):
         r1 = await waiter(value)
         if rounds == 2:
             box['exp1'] = expected(structure)
+            box['r1_ok'] = _same(r1, box['exp1'])
+            box['r1_repr'] = repr(r1)[:300]
+            _edit_empties(r1)        # the result belongs to the caller
             gen['n'] = 2
             objs.clear(); started.clear(); done_events.clear()
             recording['on'] = False
@@ -480,8 +527,8 @@ def execute(trace, ctx=None):
     kind, val = outcome
     exp = expected(structure) if box.get('built') else None
     if kind == 'ok' and isinstance(val, tuple) and len(val) == 3 and val[0] == 'two-rounds':
-        if not _same(val[1], box['exp1']):
-            res.violation = {'cls': 'wrong-result', 'msg': 'first round: got %r expected %r' % (val[1], box['exp1']), 'step': None}
+        if not box.get('r1_ok'):
+            res.violation = {'cls': 'wrong-result', 'msg': 'first round: got %s expected %r' % (box.get('r1_repr'), box['exp1']), 'step': None}
             res.obs = ['two-rounds-first']
             return res
         val = val[2]
@@ -574,7 +621,8 @@ def _same_skip(val, node, leaves, skip):
     if t == 'same':
         return True          # compared at its first occurrence
     if t == 'plain':
-        return type(val) is type(node['v']) and val == node['v']
+        pv = _plain(node['v'])
+        return type(val) is type(pv) and val == pv
     if t == 'leaf':
         i = node['i']
         if i in skip:
@@ -584,6 +632,8 @@ def _same_skip(val, node, leaves, skip):
             return _same_skip(val, leaf['sub'], leaves, skip)
         def res_(j):
             k_ = leaves[j].get('res')
+            if k_ == 'handle':
+                return val if hasattr(val, 'done') else ['no-handle']
             return RES[k_] if k_ in RES else ['r', j]
         if leaf['kind'] == 'shared' and leaf.get('of') is not None:
             return _same(val, res_(leaf['of'])) or _same(val, res_(i))
